@@ -30,7 +30,7 @@ RunFrom(c, i, tape, p, acc) ==
                    Append(acc, [v |-> v, env |-> IF ReadsEnv(seq[i]) THEN c ELSE 0]))
 
 Init == /\ seed \in Seeds
-        /\ seq \in {<<a>> : a \in SeedSchemas \cup SeedSums} \cup
+        /\ seq \in {<<a>> : a \in SeedSchemas \cup SeedSums \cup SeedHelpers} \cup
                    (IF MaxSeq >= 2
                     THEN {<<a, b>> : a \in SeedSchemas \cup SeedSums,
                                      b \in {SInt05, SStrAlpha, [BareStr EXCEPT !.pattern = Some(RxNeg)], SOpen33}}
